@@ -39,6 +39,12 @@ type KStep struct {
 	// crash points between any two file-system operations, e.g. after a task finished and before its digest is on disk
 	Sys  string `json:"sys,omitempty"`
 	When int    `json:"when,omitempty"`
+	// Elsewhere: this run is started in another directory (which has a spokfile and a cache of its own)
+	// with --spokfile <project>/spokfile
+	Elsewhere bool `json:"elsewhere,omitempty"`
+	// ROCache: for the duration of this run the cache cannot be written ("file": cache.json is
+	// read-only, "dir": the .spok directory is); spok may stop with an error about its cache
+	ROCache string `json:"ro_cache,omitempty"`
 }
 
 // KillCase is a C10 case.
@@ -138,6 +144,12 @@ func genKillBody(t *rapid.T) KillCase {
 				st.Fail = []string{rapid.SampledFrom(names).Draw(t, "failtask")}
 			case 5, 3:
 				st.Kill = rapid.SampledFrom(names).Draw(t, "killtask")
+			}
+			switch rapid.IntRange(0, 9).Draw(t, "environment") {
+			case 0, 1:
+				st.Elsewhere = true
+			case 2:
+				st.ROCache = rapid.SampledFrom([]string{"file", "dir"}).Draw(t, "ro_cache")
 			}
 		}
 		c.Steps = append(c.Steps, st)
@@ -344,12 +356,37 @@ func execKill(s *ev.Shard, b *sandbox.Box, c KillCase) *rp.Fail {
 				args = append(args, "--force")
 			}
 			args = append(args, st.Tasks...)
+			cwd := b.Proj
+			if st.Elsewhere {
+				cwd = filepath.Join(b.Home, "elsewhere")
+				other := map[string]string{"elsewhere/spokfile": "task A() {\n    echo other\n}\n", "elsewhere/.spok/cache.json": `{"A":"0000","B":"1111","C":"2222"}`, "elsewhere/.spok/.gitignore": "*\n"}
+				if err := writeProject(b, b.Home, other); err != nil {
+					return &rp.Fail{Sig: "harness", Msg: err.Error()}
+				}
+				args = append([]string{"--spokfile", filepath.Join(b.Proj, "spokfile")}, args...)
+			}
+			switch st.ROCache {
+			case "file":
+				_ = os.Chmod(cachePath, 0o444)
+			case "dir":
+				_ = os.Chmod(filepath.Dir(cachePath), 0o555)
+			}
 			var res sandbox.Result
 			if st.Sys != "" && stracePath != "" {
 				wrapper := []string{stracePath, "-f", "-qq", "-o", "/dev/null", "-e", "trace=" + st.Sys, "-e", fmt.Sprintf("inject=%s:signal=SIGKILL:when=%d", st.Sys, st.When)}
-				res = b.RunWrapped(wrapper, b.Proj, env, runTimeout, args...)
+				res = b.RunWrapped(wrapper, cwd, env, runTimeout, args...)
 			} else {
-				res = b.Run(b.Proj, env, runTimeout, args...)
+				res = b.Run(cwd, env, runTimeout, args...)
+			}
+			if st.ROCache != "" {
+				_ = os.Chmod(filepath.Dir(cachePath), 0o755)
+				_ = os.Chmod(cachePath, 0o644)
+				if s != nil {
+					s.Class("run_with_unwritable_cache")
+				}
+			}
+			if st.Elsewhere && s != nil {
+				s.Class("run_from_elsewhere_with_spokfile_flag")
 			}
 			if res.TimedOut {
 				return &rp.Fail{Sig: "harness", Msg: "spok timed out"}
